@@ -74,7 +74,7 @@ func ruleTrimCollinear(rule string) func(*Ctx) {
 		var main *loopInfo
 		for _, l := range loops {
 			hasAppend := false
-			for b := range l.blocks {
+			for _, b := range l.ordered() {
 				for _, in := range b.Instrs {
 					if call, ok := in.(*ssa.Call); ok {
 						if bi, ok := call.Call.Value.(*ssa.Builtin); ok && bi.Name() == "append" {
@@ -84,7 +84,7 @@ func ruleTrimCollinear(rule string) func(*Ctx) {
 				}
 			}
 			uses := false
-			for b := range l.blocks {
+			for _, b := range l.ordered() {
 				for _, in := range b.Instrs {
 					if ci, ok := in.(ssa.CallInstruction); ok && calleeName(c, ci) == "isCollinear" {
 						uses = true
@@ -127,7 +127,7 @@ func ruleTrimCollinear(rule string) func(*Ctx) {
 				"a vertex is dropped exactly when isCollinear(...) holds for it, kept otherwise", bad,
 				"only vertices exactly collinear with their current neighbours may disappear")
 			// the tested triple: (last kept, path[i], path[i+1])
-			for b := range main.blocks {
+			for _, b := range main.ordered() {
 				for _, in := range b.Instrs {
 					ci, ok := in.(ssa.CallInstruction)
 					if !ok || calleeName(c, ci) != "isCollinear" {
@@ -159,7 +159,7 @@ func ruleTrimCollinear(rule string) func(*Ctx) {
 			if l == main {
 				continue
 			}
-			for b := range l.blocks {
+			for _, b := range l.ordered() {
 				for _, in := range b.Instrs {
 					ci, ok := in.(ssa.CallInstruction)
 					if !ok || calleeName(c, ci) != "isCollinear" {
@@ -264,7 +264,7 @@ func ruleSimplify(rule string) func(*Ctx) {
 			// final pass: result = elements with !flags[i], in order
 			var final *loopInfo
 			for _, l := range loops {
-				for b := range l.blocks {
+				for _, b := range l.ordered() {
 					for _, in := range b.Instrs {
 						if call, ok := in.(*ssa.Call); ok {
 							if bi, ok := call.Call.Value.(*ssa.Builtin); ok && bi.Name() == "append" {
